@@ -118,6 +118,7 @@ TEMPLATES = [
 ]
 
 
+TOK_PRE = ["x := [1, 2]", "f := \\a, b -> a"]
 ADDRESSING = {"index", "slice", "slice_open", "index_assign", "index_opassign", "index2_assign", "slice_assign", "every_slice", "every_slice_op",
               "update", "pop_index", "remove", "remove_slice", "swap_index"}
 
@@ -173,7 +174,8 @@ def wrap(body):
 
 def bounds(tier):
     return {"callables": len(fns()), "skipped_effectful": sorted(SKIP), "pool": [n for n, _ in POOL] if tier != "quick" else QUICK,
-            "three_arg_subpool": SUB3 if tier != "quick" else SUB3_QUICK, "statement_templates": len(TEMPLATES)}
+            "three_arg_subpool": SUB3 if tier != "quick" else SUB3_QUICK, "statement_templates": len(TEMPLATES),
+            "token_programs": "every sequence of <= %d tokens over the 58-token alphabet of C15, evaluated" % (3 if tier == "quick" else 4)}
 
 
 def cases(tier, shard, nshards):
@@ -220,11 +222,24 @@ def cases(tier, shard, nshards):
             risky = ("infstream" in t) if name in ADDRESSING else any(a in RISKY for a in t)
             opts = {"step_ms": 200 if risky else 3000, "fuel": 20000, "compact": True, "hang_retry": not risky}
             yield Case(wrap(body), {"k": "stmt", "fn": name, "args": list(t), "risky": risky}, pre=PRE, opts=opts)
+    # every program of up to three tokens over the token alphabet of the parser check (C15) is also RUN (x and f are bound): whatever
+    # parses must end with a value, a catchable error or an escaped break / return - never a panic
+    from .c15 import TOKENS
+    for n in range(1, 4 if tier == "quick" else 5):
+        for t in itertools.product(TOKENS, repeat=n - 1):
+            cnt += 1
+            if cnt % nshards != shard:
+                continue
+            steps = [" ".join(t + (last,)) for last in TOKENS]
+            yield Case(steps, {"k": "tokens", "fn": "tokens", "args": list(t), "risky": False}, pre=TOK_PRE, iso=True,
+                       opts={"step_ms": 1500, "fuel": 3000, "compact": True, "cap": 6})
 
 
 def nontrivial(case, rs):
     if case.meta["k"] == "aftermath":
         return rs[0].get("st") == "ok"
+    if case.meta["k"] == "tokens":
+        return any(r.get("st") != "parse_error" for r in rs)
     r = rs[0]
     return r.get("st") == "ok" and isinstance(r.get("v"), list)
 
@@ -252,6 +267,10 @@ RESOURCE = ("capacity overflow", "memory allocation", "alloc", "out of memory")
 def tally(case, rs, extra):
     if case.meta["k"] == "aftermath":
         extra["aftermath_cases"] += 1
+        return
+    if case.meta["k"] == "tokens":
+        for r in rs:
+            extra["tokens_" + str(r.get("st"))] += 1
         return
     r = rs[0]
     st = r.get("st")
@@ -281,10 +300,24 @@ def judge_aftermath(case, rs):
     return []
 
 
+def judge_tokens(case, rs):
+    out = []
+    for src, r in zip(case.steps, rs):
+        st = r.get("st")
+        if st == "panic":
+            msg = r.get("e", "")
+            out.append(Violation("C14 tokens st=panic msg=%s site=%s" % (norm_msg(msg), site(msg)), "%s panicked: %s" % (src, msg[:300]), "value or catchable error", msg[:300]))
+        elif st in ("abort", "hang"):
+            out.append(Violation("C14 tokens st=%s" % st, "%s -> %s %s" % (src, st, (r.get("e") or "")[-200:]), "value or catchable error", st))
+    return out[:3]
+
+
 def judge(case, rs):
     m = case.meta
     if m["k"] == "aftermath":
         return judge_aftermath(case, rs)
+    if m["k"] == "tokens":
+        return judge_tokens(case, rs)
     r = rs[0]
     st = r.get("st")
     src = case.steps[0]
